@@ -105,6 +105,11 @@ impl ArrivalBound for ArrivalCurvePrefix {
     }
 
     fn steps_iter<'a>(&'a self) -> Box<dyn Iterator<Item = Duration> + 'a> {
+        if self.steps.is_empty() {
+            // nothing ever arrives; cycling over an empty list of steps
+            // below would never yield (nor terminate)
+            return Box::new(iter::empty());
+        }
         let horizon = self.horizon;
         Box::new(
             iter::once(Duration::zero()).chain((0..).flat_map(move |cycle: u64| {
